@@ -115,11 +115,19 @@ class Proc:
 
 
 def run(args, cwd=None, env=None, stdin=None, wall_s=120, cpu_s=None, as_bytes=None, binary=False, max_out=1 << 22):
-    """run a child; wall-clock timeout => timed_out (inconclusive), RLIMIT_CPU => cpu_killed (SIGXCPU)"""
+    """run a child; wall-clock timeout => timed_out (inconclusive), RLIMIT_CPU => cpu_killed (SIGXCPU).
+    Limits are set by a tiny sh wrapper (ulimit) instead of a preexec_fn, so that Python can vfork/spawn
+    the child from a many-threaded supervisor without paying for a full fork."""
+    pre = ["ulimit -c 0"]
+    if cpu_s:
+        pre.append("ulimit -t %d" % int(cpu_s))
+    if as_bytes:
+        pre.append("ulimit -v %d" % (as_bytes // 1024))
+    argv = ["/bin/sh", "-c", "; ".join(pre) + '; exec "$@"', "sh"] + list(args)
     try:
-        p = subprocess.Popen(args, cwd=cwd, env=env if env is not None else base_env(),
+        p = subprocess.Popen(argv, cwd=cwd, env=env if env is not None else base_env(),
                              stdin=subprocess.PIPE if stdin is not None else subprocess.DEVNULL,
-                             stdout=subprocess.PIPE, stderr=subprocess.PIPE, preexec_fn=_limits(cpu_s, as_bytes))
+                             stdout=subprocess.PIPE, stderr=subprocess.PIPE, start_new_session=True)
     except OSError as e:
         return Proc(-999, b"" if binary else "", ("spawn failed: %s" % e).encode() if binary else "spawn failed: %s" % e, True)
     timed_out = False
@@ -167,7 +175,7 @@ class Probe:
     def _start(self):
         self.errf = open(self.errpath, "wb")
         self.p = subprocess.Popen([PROBE, "serve"], stdin=subprocess.PIPE, stdout=subprocess.PIPE, stderr=self.errf,
-                                  env=base_env(), preexec_fn=_limits(None, None))
+                                  env=base_env(), start_new_session=True)
 
     def request(self, req, wall_s=120):
         if self.p is None or self.p.poll() is not None:
